@@ -40,7 +40,7 @@ theorem exNoLocalCall : NoLocalCall exProg := by
     decide +kernel
   have := key pc (exSlots pc i h)
   rw [h] at this
-  simpa using this
+  exact of_decide_eq_true this
 
 theorem exNoF7 : NoF7 exProg := by
   intro pc i h
@@ -48,7 +48,7 @@ theorem exNoF7 : NoF7 exProg := by
     decide +kernel
   have := key pc (exSlots pc i h)
   rw [h] at this
-  simpa using this
+  exact of_decide_eq_true this
 
 /-! ### its machine code -/
 
@@ -99,9 +99,9 @@ def exMem : Memory :=
 
 /-- the native frame: the eBPF stack, room for the five pushes, the caller's return address at offset 552 -/
 def exFrame : Region :=
-  ⟨0x7f0000003000, Array.replicate 552 0 ++ #[0xf0, 0xff, 0xff, 0xff, 0xff, 0xff, 0xff, 0xff] ++ Array.replicate 8 0⟩
-/-- one page of native stack below it -/
-def exLower : Region := ⟨0x7f0000002000, Array.replicate 4096 0⟩
+  ⟨0x7f0000003000, (List.replicate 552 (0 : BitVec 8) ++ [0xf0, 0xff, 0xff, 0xff, 0xff, 0xff, 0xff, 0xff] ++ List.replicate 8 0).toArray⟩
+/-- 256 bytes of native stack below it (the model needs 64; the code uses 8, for the landing pad's address) -/
+def exLower : Region := ⟨0x7f0000002f00, Array.replicate 256 0⟩
 
 /-- `prog(mbuff = 1, mbuff_len = 0, mem = 0, …)` entered under the System V convention: rdi, rsi, rdx the arguments,
     rsp at the return address, everything else whatever the caller left there -/
@@ -115,8 +115,14 @@ def exSt : X86.St :=
 private instance : DecidableRel disjoint := fun r q => by unfold disjoint; exact inferInstance
 
 set_option maxRecDepth 100000 in
+private theorem exFrame_take : exFrame.bytes.toList.take 512 = exMem.stack.bytes.toList := by decide +kernel
+/-- the first 512 bytes of the native frame are the eBPF stack -/
+private theorem exFrame_stack (k : Nat) (hk : k < 512) : exFrame.bytes[k]? = exMem.stack.bytes[k]? := by
+  rw [← Array.getElem?_toList, ← Array.getElem?_toList, ← exFrame_take, List.getElem?_take_of_lt hk]
+
+set_option maxRecDepth 100000 in
 theorem exMemRel : MemRel exSt.mem exMem :=
-  ⟨exFrame, exLower, rfl, rfl, by decide +kernel, by decide +kernel, by decide +kernel, by decide +kernel,
+  ⟨exFrame, exLower, rfl, rfl, by decide +kernel, by decide +kernel, exFrame_stack, by decide +kernel,
     by decide +kernel, by decide +kernel, by decide +kernel⟩
 
 set_option maxRecDepth 100000 in
@@ -133,7 +139,7 @@ theorem exEntry : Entry exCfg exMem exSt where
 
 /-- the memory after the run: 42 in the top eight bytes of the eBPF stack -/
 def exMemAfter : Memory :=
-  { exMem with stack := ⟨0x7f0000003000, Array.replicate 504 0 ++ #[42, 0, 0, 0, 0, 0, 0, 0]⟩ }
+  { exMem with stack := ⟨0x7f0000003000, (List.replicate 504 (0 : BitVec 8) ++ [42, 0, 0, 0, 0, 0, 0, 0]).toArray⟩ }
 
 private def regionKey (r : Region) : Nat × List (BitVec 8) := (r.base, r.bytes.toList)
 private def memKey (m : Memory) : List (Nat × List (BitVec 8)) := (m.mbuff :: m.mem :: m.stack :: m.extra).map regionKey
@@ -151,16 +157,20 @@ private theorem memKey_inj {a b : Memory} (h : memKey a = memKey b) : a = b := b
   obtain ⟨rfl, rfl, rfl, rfl⟩ := h'
   rfl
 
-/-- what a run returns and the memory it leaves (in a form with a kernel-friendly decidable equality) -/
-private def outcome : Interp.Result → Option (BitVec 64 × List (Nat × List (BitVec 8)))
-  | .done r s => some (r, memKey s.mem)
+/-- what a run returns, the memory it leaves and the helper calls it made (in a form whose decidable equality the
+    kernel evaluates quickly) -/
+private def outcome : Interp.Result → Option (BitVec 64 × List (Nat × List (BitVec 8)) × List (Nat × List (BitVec 64)))
+  | .done r s => some (r, memKey s.mem, s.log)
   | _ => none
-private theorem outcome_done {res : Interp.Result} {r : BitVec 64} {m : Memory} (h : outcome res = some (r, memKey m)) :
-    ∃ b, res = .done r b ∧ b.mem = m := by
+set_option synthInstance.maxSize 1000 in
+private instance : DecidableEq (Option (BitVec 64 × List (Nat × List (BitVec 8)) × List (Nat × List (BitVec 64)))) :=
+  inferInstance
+private theorem outcome_done {res : Interp.Result} {r : BitVec 64} {m : Memory} {l : List (Nat × List (BitVec 64))}
+    (h : outcome res = some (r, memKey m, l)) : ∃ b, res = .done r b ∧ b.mem = m ∧ b.log = l := by
   cases res with
   | done r' b =>
     simp only [outcome, Option.some.injEq, Prod.mk.injEq] at h
-    exact ⟨b, by rw [h.1], memKey_inj h.2⟩
+    exact ⟨b, by rw [h.1], memKey_inj h.2.1, h.2.2⟩
   | err e b => simp [outcome] at h
   | panic => simp [outcome] at h
   | fault => simp [outcome] at h
@@ -186,12 +196,13 @@ local elab "kernel_rfl" : tactic => do
 private theorem exRunAny (a0 a2 a3 a4 a5 a6 a7 a8 a9 : BitVec 64) (u : Vector Nat 8) :
     outcome (EngineSem.jitRun exEnv
       { reg := #v[a0, 0#64, a2, a3, a4, a5, a6, a7, a8, a9, 0x7f0000003200#64], pc := 0, frames := [], usage := u,
-        mem := exMem, log := [] } 10) = some (42#64, memKey exMemAfter) := by
+        mem := exMem, log := [] } 10) = some (42#64, memKey exMemAfter, []) := by
   apply of_decide_eq_true
   kernel_rfl
 
 set_option maxRecDepth 100000 in
-private theorem exRunInit : outcome (EngineSem.jitRun exEnv (Interp.init exMem) 10) = some (42#64, memKey exMemAfter) := by
+private theorem exRunInit :
+    outcome (EngineSem.jitRun exEnv (Interp.init exMem) 10) = some (42#64, memKey exMemAfter, []) := by
   decide +kernel
 
 theorem exRegIndep : RegIndep exEnv exMem 10 := by
@@ -200,7 +211,7 @@ theorem exRegIndep : RegIndep exEnv exMem 10 := by
   have hi := exRunInit
   rw [ha] at hi
   simp only [outcome, Option.some.injEq, Prod.mk.injEq] at hi
-  obtain ⟨rfl, hma⟩ := hi
+  obtain ⟨rfl, hma, -⟩ := hi
   rw [memKey_inj hma]
   -- any other start with the same r1 and r10
   obtain ⟨reg, pc, frames, usage, mem, log⟩ := s
@@ -213,20 +224,24 @@ theorem exRegIndep : RegIndep exEnv exMem 10 := by
   rw [e10] at h10
   obtain rfl : a1 = 0#64 := Option.some.inj h1
   obtain rfl : a10 = 0x7f0000003200#64 := Option.some.inj h10
-  exact outcome_done (exRunAny a0 a2 a3 a4 a5 a6 a7 a8 a9 usage)
+  obtain ⟨b, hb, hbm, -⟩ := outcome_done (exRunAny a0 a2 a3 a4 a5 a6 a7 a8 a9 usage)
+  exact ⟨b, hb, by rw [hbm]; exact ⟨rfl, rfl, rfl⟩⟩
 
 /-! ### the theorems on the example -/
 
 set_option maxRecDepth 100000 in
 /-- the interpreter returns 42 and leaves `exMemAfter` -/
-theorem exInterp : ∃ s', Interp.run exEnv (Interp.init exMem) 10 = .done 42#64 s' ∧ s'.mem = exMemAfter :=
-  outcome_done (by decide +kernel)
+theorem exInterp : ∃ s', Interp.run exEnv (Interp.init exMem) 10 = .done 42#64 s' ∧ s'.mem = exMemAfter := by
+  obtain ⟨s', h1, h2, -⟩ := outcome_done (res := Interp.run exEnv (Interp.init exMem) 10) (r := 42#64) (m := exMemAfter)
+    (l := []) (by decide +kernel)
+  exact ⟨s', h1, h2⟩
 
 /-- **`C03_x86_accepted` applies**: every hypothesis holds of the example, so the machine, started on `exCode` from
-    `exSt` (garbage in every register the calling convention does not fix), returns 42 to its caller, with 42 stored in
-    the top eight bytes of the eBPF stack, the callee-saved registers restored and the return address popped -/
+    `exSt` (garbage in every register the calling convention does not fix), returns 42 to its caller, with metadata,
+    packet and registered ranges as the interpreter leaves them (here: empty), the callee-saved registers restored and the
+    return address popped -/
 theorem C03_x86_example :
-    ∃ k σ', X86.run exCfg exSt k = .done 42#64 σ' ∧ MemRel σ'.mem exMemAfter ∧
+    ∃ k σ', X86.run exCfg exSt k = .done 42#64 σ' ∧ DataRel σ'.mem exMemAfter ∧
       σ'.get 3 = 0xbbbbbbbbbbbbbbbb#64 ∧ σ'.get 5 = 0x5555555555555555#64 ∧ σ'.get 13 = 0xdddddddddddddddd#64 ∧
       σ'.get 14 = 0xeeeeeeeeeeeeeeee#64 ∧ σ'.get 15 = 0xffffffffffffffff#64 ∧
       (σ'.get X86.RSP).toNat = 0x7f0000003230 := by
@@ -238,8 +253,13 @@ theorem C03_x86_example :
   exact h
 
 set_option maxRecDepth 100000 in
-/-- … and the machine model, run on those bytes from that state, does return 42 (23 instructions) -/
-example : (match X86.run exCfg exSt 23 with | .done r _ => some r | _ => none) = some 42#64 := by decide +kernel
+/-- … and the machine model, run on those bytes from that state, does return 42 (after 25 instructions, not before), with
+    42 in the top eight bytes of the eBPF stack -/
+example :
+    (match X86.run exCfg exSt 25 with
+      | .done r σ' => some (r, X86.readMem σ'.mem 0x7f00000031f8 8)
+      | _ => none) = some (42#64, some [42, 0, 0, 0, 0, 0, 0, 0]) ∧
+    (match X86.run exCfg exSt 24 with | .timeout => true | _ => false) = true := by decide +kernel
 
 set_option maxRecDepth 100000 in
 /-- the hypothesis `RegIndep` is needed: for the accepted program `exit` the interpreter returns 0 (its r0 starts at 0),
@@ -264,5 +284,162 @@ set_option maxRecDepth 100000 in
 /-- … and the validator, evaluated on them, says so -/
 example : JitAst.validate exProg (fun _ => none) false false exCode { pcLocs := exLocs, exitLoc := exExit } = true := by
   decide +kernel
+
+/-! ### a second example: a helper call (`C03_x86_calls`) -/
+
+/-- the registered helper: a function of all five arguments -/
+def exHelper : HelperFn := fun a b c d e => a + b + c + d + e + 7
+
+/-- `mov r1, 5 ; mov r2, 6 ; mov r3, 7 ; mov r4, 8 ; mov r5, 9 ; call 1 ; exit` — all five arguments are set: compiled
+    code enters with garbage in r2 … r5, and the helper's arguments are part of the statement -/
+def exProgC : Bytes :=
+  #[0xb7,0x01,0,0,5,0,0,0,  0xb7,0x02,0,0,6,0,0,0,  0xb7,0x03,0,0,7,0,0,0,  0xb7,0x04,0,0,8,0,0,0,
+    0xb7,0x05,0,0,9,0,0,0,  0x85,0x00,0,0,1,0,0,0,  0x95,0,0,0,0,0,0,0]
+
+/-- helper 1 registered -/
+def exEnvC : Env :=
+  { prog := exProgC, helpers := fun id => if id = 1 then some exHelper else none, allowed := [],
+    usage := Interp.stackUsage exProgC none }
+/-- … at this address -/
+def exHaddr : Nat → Option Nat := fun id => if id = 1 then some 0x555500001000 else none
+
+/-- the 105 bytes the emitter model writes -/
+def exCodeC : Array UInt8 :=
+  #[0x55, 0x53, 0x41,0x55, 0x41,0x56, 0x41,0x57, 0x49,0x89,0xd2, 0x48,0x89,0xd7, 0x48,0x89,0xe5,   -- prologue as above
+    0x48,0x81,0xec,0x00,0x02,0x00,0x00, 0xe8,0x05,0x00,0x00,0x00, 0xe9,0x37,0x00,0x00,0x00,
+    0x48,0xc7,0xc7,0x05,0x00,0x00,0x00,                         -- 34: mov rdi, 5
+    0x48,0xc7,0xc6,0x06,0x00,0x00,0x00,                         -- 41: mov rsi, 6
+    0x48,0xc7,0xc2,0x07,0x00,0x00,0x00,                         -- 48: mov rdx, 7
+    0x49,0xc7,0xc1,0x08,0x00,0x00,0x00,                         -- 55: mov r9, 8
+    0x49,0xc7,0xc0,0x09,0x00,0x00,0x00,                         -- 62: mov r8, 9
+    0x41,0x52, 0x4c,0x89,0xc9,                                  -- 69: push r10 ; mov rcx, r9
+    0x48,0xb8,0x00,0x10,0x00,0x00,0x55,0x55,0x00,0x00,          --     movabs rax, 0x555500001000
+    0xff,0xd0, 0x41,0x5a,                                       --     call rax ; pop r10
+    0xc3,                                                       -- 88: ret
+    0x48,0x81,0xc4,0x00,0x02,0x00,0x00, 0x41,0x5f, 0x41,0x5e, 0x41,0x5d, 0x5b, 0x5d, 0xc3]   -- 89: epilogue
+def exLocsC : Array Nat := #[34, 41, 48, 55, 62, 69, 88, 0]
+def exExitC : Nat := 89
+
+/-- the machine finds `exHelper` at that address; after the `n`-th external call the caller-saved register `r` holds
+    some value of the callee's choosing (the theorem holds for any) -/
+def exCfgC : X86.Cfg :=
+  { code := exCodeC, codeBase := 0x100000, retSentinel := 0xfffffffffffffff0#64,
+    ext := fun a => if a = 0x555500001000 then some (0, exHelper) else none,
+    clobber := fun n r => BitVec.ofNat 64 (0xc10b0000 + 16 * n + r) }
+
+theorem exCheckC : Verifier.check exProgC = .ok := check_ok_of_wellFormed (by decide +kernel)
+
+set_option maxRecDepth 100000 in
+theorem exCompileC : JitEmit.compileWithLayout exProgC exHaddr false false = .ok (exCodeC, exLocsC, exExitC) :=
+  eq_ok_of_ok? (by decide +kernel)
+
+theorem exCoveredC : CoveredC exProgC := by unfold CoveredC; decide +kernel
+
+private theorem exSlotsC (pc : Nat) (i : Insn) (h : getInsn? exProgC pc = some i) : pc < 7 := by
+  have hs : exProgC.size = 56 := by decide
+  unfold getInsn? at h
+  split at h
+  · cases h
+  · omega
+
+theorem exNoLocalCallC : NoLocalCall exProgC := by
+  intro pc i h
+  have key : ∀ pc, pc < 7 → (getInsn? exProgC pc).all (fun i => decide (¬ (i.opc = 0x85 ∧ i.src = 1))) = true := by
+    decide +kernel
+  have := key pc (exSlotsC pc i h)
+  rw [h] at this
+  exact of_decide_eq_true this
+
+theorem exNoF7C : NoF7 exProgC := by
+  intro pc i h
+  have key : ∀ pc, pc < 7 → (getInsn? exProgC pc).all (fun i => decide (Isa.isF7 i = false)) = true := by
+    decide +kernel
+  have := key pc (exSlotsC pc i h)
+  rw [h] at this
+  exact of_decide_eq_true this
+
+theorem exExtOk : ExtOk exCfgC exEnvC exHaddr := by
+  constructor
+  · intro id addr f h1 h2
+    by_cases hid : id = 1
+    · subst hid
+      obtain rfl : 0x555500001000 = addr := Option.some.inj h1
+      obtain rfl : exHelper = f := Option.some.inj h2
+      exact ⟨0, rfl⟩
+    · simp [exHaddr, hid] at h1
+  · intro id addr h1
+    by_cases hid : id = 1
+    · subst hid
+      obtain rfl : 0x555500001000 = addr := Option.some.inj h1
+      decide
+    · simp [exHaddr, hid] at h1
+
+/-- the same entry state and memory as in the first example (the stack is 16-byte aligned, as the ABI has it) -/
+theorem exEntryC : Entry exCfgC exMem exSt :=
+  ⟨exEntry.rip, exEntry.rdi, exEntry.rsi, exEntry.rdx, exEntry.rsp, exEntry.mem, exEntry.sentinel⟩
+
+/-- whatever r0, r2 … r9 hold at entry and whatever the helper leaves in r1 … r5, seven steps return 42, leave the memory
+    untouched and have called helper 1 with (5, 6, 7, 8, 9) -/
+private theorem exRunAnyC (clob : Nat → Nat → BitVec 64) (a0 a2 a3 a4 a5 a6 a7 a8 a9 : BitVec 64) (u : Vector Nat 8) :
+    outcome (jitRunC clob exEnvC
+      { reg := #v[a0, 0#64, a2, a3, a4, a5, a6, a7, a8, a9, 0x7f0000003200#64], pc := 0, frames := [], usage := u,
+        mem := exMem, log := [] } 10) = some (42#64, memKey exMem, [(1, [5#64, 6#64, 7#64, 8#64, 9#64])]) := by
+  apply of_decide_eq_true
+  kernel_rfl
+
+set_option maxRecDepth 100000 in
+private theorem exRunInitC :
+    outcome (EngineSem.jitRun exEnvC (Interp.init exMem) 10) =
+      some (42#64, memKey exMem, [(1, [5#64, 6#64, 7#64, 8#64, 9#64])]) := by
+  decide +kernel
+
+theorem exClobIndep : ClobIndep exEnvC exMem 10 := by
+  intro clob s hpc hfr hmem hlog h1 h10 r0 a ha
+  have hi := exRunInitC
+  rw [ha] at hi
+  simp only [outcome, Option.some.injEq, Prod.mk.injEq] at hi
+  obtain ⟨rfl, hma, hla⟩ := hi
+  rw [memKey_inj hma, hla]
+  obtain ⟨reg, pc, frames, usage, mem, log⟩ := s
+  simp only at hpc hfr hmem hlog h1 h10
+  subst hpc hfr hmem hlog
+  obtain ⟨a0, a1, a2, a3, a4, a5, a6, a7, a8, a9, a10, rfl⟩ := vec11 reg
+  have e1 : (Interp.init exMem).reg[1]? = some 0#64 := by decide +kernel
+  have e10 : (Interp.init exMem).reg[10]? = some 0x7f0000003200#64 := by decide +kernel
+  rw [e1] at h1
+  rw [e10] at h10
+  obtain rfl : a1 = 0#64 := Option.some.inj h1
+  obtain rfl : a10 = 0x7f0000003200#64 := Option.some.inj h10
+  obtain ⟨b, hb, hbm, hbl⟩ := outcome_done (exRunAnyC clob a0 a2 a3 a4 a5 a6 a7 a8 a9 usage)
+  exact ⟨b, hb, by rw [hbm]; exact ⟨rfl, rfl, rfl⟩, hbl⟩
+
+set_option maxRecDepth 100000 in
+/-- the interpreter returns 42, leaves the memory as it was, and has called helper 1 once, with (5, 6, 7, 8, 9) -/
+theorem exInterpC : ∃ s', Interp.run exEnvC (Interp.init exMem) 10 = .done 42#64 s' ∧ s'.mem = exMem ∧
+    s'.log = [(1, [5#64, 6#64, 7#64, 8#64, 9#64])] :=
+  outcome_done (by decide +kernel)
+
+/-- **`C03_x86_calls` applies**: the machine returns 42, restores what it must, and has called the function at the
+    helper's address exactly once, with (5, 6, 7, 8, 9) in rdi, rsi, rdx, rcx, r8 and rsp a multiple of 16 -/
+theorem C03_x86_calls_example :
+    ∃ k σ', X86.run exCfgC exSt k = .done 42#64 σ' ∧ DataRel σ'.mem exMem ∧
+      σ'.get 3 = 0xbbbbbbbbbbbbbbbb#64 ∧ σ'.get 5 = 0x5555555555555555#64 ∧ σ'.get 13 = 0xdddddddddddddddd#64 ∧
+      σ'.get 14 = 0xeeeeeeeeeeeeeeee#64 ∧ σ'.get 15 = 0xffffffffffffffff#64 ∧
+      (σ'.get X86.RSP).toNat = 0x7f0000003230 ∧
+      σ'.log.map (·.2) = [[5#64, 6#64, 7#64, 8#64, 9#64]] ∧ σ'.misaligned = 0 := by
+  obtain ⟨s', hint, hmem, hlog⟩ := exInterpC
+  have h := C03_x86_calls exEnvC exHaddr false exCfgC exLocsC exExitC exMem exSt 10 42#64 s'
+    exCheckC exCompileC exExtOk (by decide +kernel) exCoveredC exNoLocalCallC exNoF7C
+    (by decide +kernel) (Or.inr (by decide +kernel)) exEntryC rfl (by decide +kernel) (fun _ => rfl) (fun _ => rfl)
+    exClobIndep hint
+  rw [hmem, hlog] at h
+  exact h
+
+set_option maxRecDepth 100000 in
+/-- … and the machine model, run on those bytes, does so (29 instructions, the external call counted as one) -/
+example :
+    (match X86.run exCfgC exSt 29 with
+      | .done r σ' => some (r, σ'.log, σ'.misaligned)
+      | _ => none) = some (42#64, [(0, [5#64, 6#64, 7#64, 8#64, 9#64])], 0) := by decide +kernel
 
 end Rbpf
